@@ -178,3 +178,49 @@ fn c14_shader_package_from_existing() {
     kani::cover!(q == s1 && q != s0);
     core::mem::forget(pkg);
 }
+
+// -------------------------------------------------------------------------------------------------
+// a package with ONE pixel shader that has one UAV and one texture parameter (names in the string
+// blob), 4 bytes of bytecode, nothing else: the two parameter lists are read in their stored order
+// (scalar, resource, uav, texture) and each name comes from strings_offset + its own offset
+// -------------------------------------------------------------------------------------------------
+const PS_TOTAL: usize = 140;
+#[kani::proof]
+#[kani::unwind(20)]
+#[kani::stub(core::str::validations::run_utf8_validation, crate::verif_support::refs::ascii_utf8_validation)]
+fn c14_shader_package_pixel_shader_parameters() {
+    let mut b: [u8; PS_TOTAL] = kani::any();
+    let put32 = |b: &mut [u8; PS_TOTAL], o: usize, v: u32| { let x = v.to_le_bytes(); b[o] = x[0]; b[o + 1] = x[1]; b[o + 2] = x[2]; b[o + 3] = x[3]; };
+    let put16 = |b: &mut [u8; PS_TOTAL], o: usize, v: u16| { let x = v.to_le_bytes(); b[o] = x[0]; b[o + 1] = x[1]; };
+    let le32 = |b: &[u8; PS_TOTAL], o: usize| u32::from_le_bytes([b[o], b[o + 1], b[o + 2], b[o + 3]]);
+    let le16 = |b: &[u8; PS_TOTAL], o: usize| u16::from_le_bytes([b[o], b[o + 1]]);
+    b[0] = b'S'; b[1] = b'h'; b[2] = b'P'; b[3] = b'k';
+    b[8] = b'D'; b[9] = b'X'; b[10] = b'1'; b[11] = b'1';
+    put32(&mut b, 16, 128); put32(&mut b, 20, 132);             // shader data offset, strings offset
+    put32(&mut b, 24, 0); put32(&mut b, 28, 1);                 // 0 vertex shaders, 1 pixel shader
+    put16(&mut b, 36, 0); put16(&mut b, 38, 0); put16(&mut b, 40, 0); put16(&mut b, 44, 0); put16(&mut b, 46, 0); put16(&mut b, 48, 0);
+    put32(&mut b, 52, 0); put32(&mut b, 56, 0); put32(&mut b, 60, 0); put32(&mut b, 64, 0); put32(&mut b, 68, 0);
+    // the shader: blob at +0, 4 bytes; 0 scalar, 0 resource, 1 uav, 1 texture
+    put32(&mut b, 72, 0); put32(&mut b, 76, 4);
+    put16(&mut b, 80, 0); put16(&mut b, 82, 0); put16(&mut b, 84, 1); put16(&mut b, 86, 1);
+    // uav parameter at 88, texture parameter at 104: id, string offset, string length, unknown, slot, size
+    put32(&mut b, 92, 0); put16(&mut b, 96, 4);
+    put32(&mut b, 108, 4); put16(&mut b, 112, 4);
+    let names = b"uav0tex1";
+    let mut i = 0;
+    while i < 8 { b[132 + i] = names[i]; i += 1; }
+    let pkg = ShaderPackage::from_existing(&b).unwrap();
+    assert_eq!((pkg.vertex_shaders.len(), pkg.pixel_shaders.len()), (0, 1));
+    let sh = &pkg.pixel_shaders[0];
+    assert_eq!((sh.scalar_parameters.len(), sh.resource_parameters.len(), sh.uav_parameters.len(), sh.texture_parameters.len()), (0, 0, 1, 1));
+    let (u, t) = (&sh.uav_parameters[0], &sh.texture_parameters[0]);
+    assert_eq!((u.id, u.unknown, u.slot, u.size), (le32(&b, 88), le16(&b, 98), le16(&b, 100), le16(&b, 102)));
+    assert_eq!((t.id, t.unknown, t.slot, t.size), (le32(&b, 104), le16(&b, 114), le16(&b, 116), le16(&b, 118)));
+    assert!(u.name.as_bytes() == b"uav0");
+    assert!(t.name.as_bytes() == b"tex1");
+    assert_eq!(sh.bytecode.len(), 4);
+    assert!(sh.bytecode[0] == b[128] && sh.bytecode[3] == b[131]);
+    assert_eq!((pkg.sub_view_key1_default, pkg.sub_view_key2_default), (le32(&b, 120), le32(&b, 124)));
+    kani::cover!(true);
+    core::mem::forget(pkg);
+}
